@@ -326,6 +326,21 @@ func ops() []op {
 			if !patecdsa.Verify(&f.ecKey.PublicKey, e.msg, r, s) {
 				return nil, fmt.Errorf("the same signature object does not verify a second time")
 			}
+			// a key given in an encoding longer than the group order (value >= N): signing READS the caller's key object
+			big1, err := patecdsa.CreateKey(elliptic.P384(), append(bytes.Repeat([]byte{0xf1}, 18), e.seed...))
+			if err != nil {
+				return nil, err
+			}
+			d0, x0, y0 := new(big.Int).Set(big1.D), new(big.Int).Set(big1.X), new(big.Int).Set(big1.Y)
+			if _, _, err := patecdsa.Sign(rand.Reader, big1, e.msg); err != nil {
+				return nil, err
+			}
+			if _, _, err := patecdsa.BlindKeySignWithContext(rand.Reader, big1, f.ecBlind, e.msg, e.ctx); err != nil {
+				return nil, err
+			}
+			if big1.D.Cmp(d0) != 0 || big1.X.Cmp(x0) != 0 || big1.Y.Cmp(y0) != 0 {
+				return nil, fmt.Errorf("signing wrote to the caller's private key object: D %x -> %x", d0, big1.D)
+			}
 			return nil, nil
 		}},
 		{name: "ecdsa.BlindKeySignWithContext", random: true, prepare: drawEd, run: func(in any, p *placer) ([]byte, error) {
